@@ -157,7 +157,8 @@ def run(params):
                      'name': 'stop', 'kwargs': {
                          'mode': None, 'cycle_point': prog.pstr(stop_pt)}})
     elif scen == 'stop_task':
-        lb = sorted(launched_instances(base))
+        lb = sorted(launched_instances(base)) or sorted(
+            (t_, p_) for t_ in prog.tasks for p_ in base.model._valid[t_])
         t, p = rng.choice(lb)
         stop_task = (t, p)
         cmds.append({'incarnation': 0, 'iter': rng.randint(1, 3), 'slot': 0,
@@ -266,6 +267,12 @@ def run(params):
         jobs = [j for k, j in res.world.jobs.items()
                 if (k[0], k[1]) == key and j.final == 'succeeded'
                 and j.submit_ok]
+        t_cmd0 = res.commands_done[0][0]
+        if jobs and min(j.end_time() for j in jobs) <= t_cmd0 + 1.0:
+            # the stop task had already succeeded when the command arrived:
+            # nothing is promised then (the run simply continues)
+            sim.probe('stop_task_already_finished')
+            jobs = []
         if jobs and res.stops[0] == 'stop:AUTOMATIC':
             t_succ = min(j.end_time() for j in jobs)
             late = [list(k) for t, k in res.launches if t > t_succ + 12.0]
